@@ -66,8 +66,10 @@ func createStructDesc(rv reflect.Value) (*structDesc, error) {
 	}
 	sd, err := newStructDescAndPrefetch(rt)
 	if err != nil {
+		rollbackPrefetch()
 		return nil, err
 	}
+	commitPrefetch()
 	sds.Set(abiType, sd)
 	if rv.Kind() == reflect.Ptr {
 		sds.Set(rvTypePtr(rv), sd) // *struct and struct share the same structDesc
@@ -76,6 +78,30 @@ func createStructDesc(rv reflect.Value) (*structDesc, error) {
 }
 
 var prefetchStructDescCache = map[reflect.Type]*structDesc{}
+
+// prefetchJournal records the cache entries and tType.Sd links made by the createStructDesc call in progress.
+// ttypes are shared and nested types link to descs which are still being built, so if the call fails,
+// all of them must be undone, or a later call would accept a type with an incomplete desc.
+// it's protected by sdsmu like prefetchStructDescCache.
+var prefetchJournal struct {
+	cached []reflect.Type
+	linked []*tType
+}
+
+func commitPrefetch() {
+	prefetchJournal.cached = prefetchJournal.cached[:0]
+	prefetchJournal.linked = prefetchJournal.linked[:0]
+}
+
+func rollbackPrefetch() {
+	for _, t := range prefetchJournal.cached {
+		delete(prefetchStructDescCache, t)
+	}
+	for _, t := range prefetchJournal.linked {
+		t.Sd = nil
+	}
+	commitPrefetch()
+}
 
 func newStructDescAndPrefetch(t reflect.Type) (*structDesc, error) {
 	if sd := prefetchStructDescCache[t]; sd != nil {
@@ -86,6 +112,7 @@ func newStructDescAndPrefetch(t reflect.Type) (*structDesc, error) {
 		return nil, err
 	}
 	prefetchStructDescCache[t] = sd
+	prefetchJournal.cached = append(prefetchJournal.cached, t)
 	if err := prefetchSubStructDesc(sd); err != nil {
 		delete(prefetchStructDescCache, t)
 		return nil, err
@@ -125,6 +152,7 @@ func fetchStructDesc(t *tType) error {
 		return err
 	}
 	t.Sd = sd
+	prefetchJournal.linked = append(prefetchJournal.linked, t)
 	return nil
 }
 
